@@ -47,11 +47,11 @@ func moduleErrorsConsumed(e *Env, entries []string, floor int, prefixes ...strin
 		if callee == nil || !e.P.IsLibrary(callee) || !a.DataFallible(callee) {
 			return false
 		}
-		// a constant text is valid UTF-8 or not once and for all
-		if prov.CalleeName(cc) == "(*cbor.Encoder).EncodeTextString" && len(cc.Args) == 2 {
-			if c, ok := cc.Args[1].(*ssa.Const); ok && c.Value != nil && c.Value.Kind() == constant.String && utf8.ValidString(constant.StringVal(c.Value)) {
-				return false
-			}
+		// a constant text is valid UTF-8 or not once and for all — also when it
+		// reaches the call through a parameter or a captured variable of a
+		// helper all of whose callers pass constants
+		if prov.CalleeName(cc) == "(*cbor.Encoder).EncodeTextString" && len(cc.Args) == 2 && constValidText(e, cc.Args[1], 0) {
+			return false
 		}
 		return true
 	}
@@ -108,3 +108,93 @@ var erruseEntries = append(append([]string{}, serializerEntries...),
 	"bundle/signature.(*Signer).AddExchange",
 	"signedexchange.(*Signer).signatureHeaderValue",
 )
+
+// constValidText: v is a constant valid UTF-8 string, or a parameter / free
+// variable that receives only such constants from every in-module caller.
+func constValidText(e *Env, v ssa.Value, depth int) bool {
+	if depth > 8 {
+		return false
+	}
+	switch x := v.(type) {
+	case *ssa.Const:
+		return x.Value != nil && x.Value.Kind() == constant.String && utf8.ValidString(constant.StringVal(x.Value))
+	case *ssa.Parameter:
+		fn := x.Parent()
+		idx := -1
+		for i, p := range fn.Params {
+			if p == x {
+				idx = i
+			}
+		}
+		if idx < 0 || exported(fn) {
+			return false
+		}
+		n := 0
+		for _, caller := range e.P.Funcs {
+			for _, b := range caller.Blocks {
+				for _, in := range b.Instrs {
+					ci, ok := in.(ssa.CallInstruction)
+					if !ok || ci.Common().StaticCallee() != fn {
+						continue
+					}
+					n++
+					if idx >= len(ci.Common().Args) || !constValidText(e, ci.Common().Args[idx], depth+1) {
+						return false
+					}
+				}
+			}
+		}
+		return n > 0
+	case *ssa.FreeVar:
+		fn := x.Parent()
+		idx := -1
+		for i, fv := range fn.FreeVars {
+			if fv == x {
+				idx = i
+			}
+		}
+		parent := fn.Parent()
+		if idx < 0 || parent == nil {
+			return false
+		}
+		n := 0
+		for _, b := range parent.Blocks {
+			for _, in := range b.Instrs {
+				if mc, ok := in.(*ssa.MakeClosure); ok && mc.Fn == ssa.Value(fn) {
+					n++
+					if !constValidText(e, mc.Bindings[idx], depth+1) {
+						return false
+					}
+				}
+			}
+		}
+		return n > 0
+	case *ssa.UnOp:
+		// load of a captured cell that is stored once with a constant-like value
+		if al, ok := x.X.(*ssa.Alloc); ok {
+			var val ssa.Value
+			stores := 0
+			for _, ref := range *al.Referrers() {
+				if st, ok := ref.(*ssa.Store); ok && st.Addr == ssa.Value(al) {
+					stores++
+					val = st.Val
+				}
+			}
+			return stores == 1 && constValidText(e, val, depth+1)
+		}
+		if fv, ok := x.X.(*ssa.FreeVar); ok {
+			return constValidText(e, fv, depth+1)
+		}
+	case *ssa.Alloc:
+		var val ssa.Value
+		stores := 0
+		for _, ref := range *x.Referrers() {
+			if st, ok := ref.(*ssa.Store); ok && st.Addr == ssa.Value(x) {
+				stores++
+				val = st.Val
+			}
+		}
+		return stores == 1 && constValidText(e, val, depth+1)
+	}
+	return false
+}
